@@ -132,7 +132,13 @@ def check_probe(sb, ref, cs, measure, alloc, th, fractional, exact_palette, exec
         acc = rebal.acceptable(row, th, fractional, exact)
         if len(acc) == 1 and None not in acc:
             nontrivial += 1
-        if not rebal.qty_matches(got.get(sym), acc):
+        g = got.get(sym)
+        if g is not None and not exact and abs(float(g)) <= 1e-9 * max(1.0, abs(float(row["held"])), abs(float(row["target"]))):
+            # float noise around an imbalance that is exactly zero in rational arithmetic (e.g. re-targeting the weight a
+            # position was opened with): a dust trade of 1e-14 lots and no trade are the same outcome
+            g = None
+            acc = set(acc) | ({None} if abs(float(row["imb"])) <= 1e-9 * max(1.0, abs(float(row["held"]))) else set())
+        if not rebal.qty_matches(g, acc):
             msgs.append("contract %s: emitted %r, acceptable %s (imbalance %r lots, imbalance weight %r, threshold %r, "
                         "held %r, targeted %s, %s)" % (
                             sym, got.get(sym), sorted((("none" if a is None else float(a)) for a in acc), key=str),
